@@ -109,7 +109,7 @@ pub fn random_cleanup(rng: &mut Rng) -> CleanupSpec {
             pre: rng.below(3) as u8,
             status: rng.pct(50),
             prints: rng.below(2) as u8,
-            end: EndSpec::Completion,
+            end: if rng.pct(15) { EndSpec::Abort(rng.next_u64() as u8) } else { EndSpec::Completion },
         },
         eod: EodOutcome {
             pre: rng.below(3) as u8,
@@ -625,9 +625,12 @@ impl Check for ClientCheck {
             }
             "C19" => {
                 // (own op commit|cancel) x (other token open or not) x pending form x 256 eod outcomes (+completion)
-                let n = 2 * 2 * 3 * 257 * 2;
+                let n = 2 * 2 * 2 * 3 * 257 * 2;
                 fams.push(Family::new("cleanup_grid_all_eod_outcomes", n, true, |mut i, _| {
                     let commit = i % 2 == 0;
+                    i /= 2;
+                    // the reversal of a reported dangling pre-authorisation may itself be refused
+                    let cancel_end = if i % 2 == 0 { EndSpec::Completion } else { EndSpec::Abort(0xb5) };
                     i /= 2;
                     let other_open = i % 2 == 1;
                     i /= 2;
@@ -643,7 +646,7 @@ impl Check for ClientCheck {
                             pre: noise,
                             status: noise == 1,
                             prints: noise,
-                            end: EndSpec::Completion,
+                            end: cancel_end,
                         },
                         eod: EodOutcome {
                             pre: noise * 2,
@@ -933,7 +936,7 @@ impl Check for ClientCheck {
             "C07" => vec!["probe.begin_refused", "probe.unknown_token_refused", "probe.begin_ok", "probe.begin_failed_by_terminal", "probe.reversal_aborted"],
             "C08" => vec!["probe.summary_compared", "probe.cleanup_with_dangling_receipt"],
             "C18" => vec!["probe.card_bank", "probe.card_membership", "probe.card_timeout", "probe.card_abort", "probe.card_unclassifiable", "probe.card_first_entry_without_id"],
-            "C19" => vec!["probe.cleanup_expected", "probe.cleanup_with_dangling_receipt", "probe.no_cleanup_while_open", "probe.eod_refused"],
+            "C19" => vec!["probe.cleanup_expected", "probe.cleanup_with_dangling_receipt", "probe.no_cleanup_while_open", "probe.eod_refused", "probe.dangling_reversal_refused"],
             "C20" => vec!["probe.card_abort", "probe.reversal_aborted", "probe.eod_refused", "probe.configure_aborted", "probe.begin_failed_by_terminal"],
             _ => vec![],
         }
